@@ -438,6 +438,9 @@ def _truncation(chk, repo, folder):
     # ------------------------------------------------------------------ R15 ODVariable.__len__ per data type (upload truncation takes len(var) // 8 bytes; shared with C04.R5)
     from . import c04 as _c04len
     _c04len.bit_length_by_type(chk, "R15")
+    # ------------------------------------------------------------------ R16 buffered reads lose nothing (shared clause)
+    from . import shared as _shri
+    _shri.readinto_delivers_all(chk, "R16", "ReadableStream")
     # ------------------------------------------------------------------ R14 instances are independent (shared clause)
     from . import shared as _shared
     _shared.isolation(chk, "R14", rels=['canopen/sdo/client.py', 'canopen/sdo/base.py'])
